@@ -72,6 +72,8 @@ def _chain(draw, nmax, maxgap, maxdur, start_max):
         k_on = cursor + gap - lo_on  # lowest possible rounded tick is cursor + gap
         if k_on == 0 and f_on < 0:
             f_on, lo_on, hi_on = Fraction(0), 0, 0
+        if out and Fraction(k_on) + f_on < out[-1][1]:
+            k_on += 1  # no overlap in seconds either (sub-tick overlaps are overlaps)
         on_hi = k_on + hi_on
         f_off, lo_off, hi_off = draw(_frac())
         tie_like = (lo_on, hi_on, lo_off, hi_off) != (0, 0, 0, 0)
@@ -98,8 +100,11 @@ def _channel():
 @st.composite
 def perf_specs(draw, tier="quick"):
     big = tier == "thorough"
-    ppq = draw(st.one_of(st.sampled_from(PPQS), st.integers(1, 10000)))
-    mpq = draw(st.one_of(st.sampled_from(MPQS), st.integers(1000, 4000000)))
+    if draw(st.sampled_from([True, False, False, False, False, False])):
+        ppq, mpq = 480, 500000  # the defaults of save_performance_midi
+    else:
+        ppq = draw(st.one_of(st.sampled_from(PPQS), st.integers(1, 10000)))
+        mpq = draw(st.one_of(st.sampled_from(MPQS), st.integers(1000, 4000000)))
     kind = draw(st.sampled_from(["performance", "performance", "ppart", "ppart", "list"]))
     ntracks = draw(st.sampled_from([1, 1, 2, 2, 2, 3, 4]))
     merge_save = draw(st.sampled_from([False, False, True]))
@@ -240,7 +245,7 @@ def perf_specs(draw, tier="quick"):
         else:
             q["notes"] = draw(st.permutations(q["notes"]))
     empty_at = None
-    if kind != "ppart" and draw(st.integers(0, 24)) == 0:
+    if kind != "ppart" and draw(st.sampled_from([False] * 24 + [True])):
         empty_at = draw(st.integers(0, len(parts)))
         parts.insert(empty_at, dict(notes=[], controls=[], programs=[], key_signatures=[], time_signatures=[], meta_other=[]))
     return dict(
@@ -277,9 +282,11 @@ def midi_specs(draw, tier="quick"):
     used = set()
     group = 0
     span = 10
+    nkeys_per_track = [draw(st.sampled_from([0, 1, 1, 2, 3])) for _ in range(ntracks)]
+    if sum(nkeys_per_track) == 0:
+        nkeys_per_track[-1] = 1  # a file without any note is not interesting
     for ti in range(ntracks):
-        nkeys = draw(st.sampled_from([0, 1, 1, 2, 3]))
-        for _ in range(nkeys):
+        for _ in range(nkeys_per_track[ti]):
             ch, pitch = draw(_channel()), draw(_pitch())
             key = (ch, pitch) if merge_load else (ti, ch, pitch)
             if key in used:
